@@ -13,6 +13,7 @@ import (
 	"time"
 
 	"go.brendoncarroll.net/p2p"
+	"go.brendoncarroll.net/p2p/p/p2pmux"
 	"go.brendoncarroll.net/p2p/s/memswarm"
 	"go.brendoncarroll.net/p2p/s/swarmutil"
 	"go.brendoncarroll.net/p2p/s/udpswarm"
@@ -744,6 +745,95 @@ func TestC13QueueStampede(t *testing.T) {
 		}
 		ev.EvalN(sub, int64(rounds))
 		if nRecv > maxMsgs {
+			if ev.NonTrivial(sub, desc) {
+				ev.Sample(sub, desc)
+			}
+		}
+	})
+}
+
+// TestC13AskCancel: cancelling the asker's context releases the Ask and ends the context its handler was given,
+// directly on the in-memory swarm and through every kind of multiplexer on top of it.
+func TestC13AskCancel(t *testing.T) {
+	const sub = "C13.ask_cancel"
+	ev.Rule(sub, "rapid: Ask on the in-memory swarm directly or through a multiplexer channel (string, uint16, uint32, uint64, varint); the destination either does not serve the channel at the time, or serves it with a handler that waits for its context; the asker's context is cancelled after 0-20 ms. Oracle: Ask returns a non-nil error within 500 ms of the cancel (patient limit); a handler that was running sees its context end within 500 ms of the cancel. non-trivial = handler running at the time of the cancel; distinct by parameters")
+	rapid.Check(t, func(t *rapid.T) {
+		c13CaseStart = time.Now()
+		kind := rapid.SampledFrom([]string{"direct", "string", "uint16", "uint32", "uint64", "varint"}).Draw(t, "stack")
+		served := rapid.Bool().Draw(t, "served")
+		cancelMs := rapid.IntRange(0, 20).Draw(t, "cancelAfterMs")
+		desc := fmt.Sprintf("%s served=%v cancelAfter=%dms", kind, served, cancelMs)
+		realm := memswarm.NewRealm(memswarm.WithQueueLen(64))
+		a, b := realm.NewSwarm(), realm.NewSwarm()
+		defer a.Close()
+		defer b.Close()
+		var asker p2p.Asker[memswarm.Addr] = a
+		var server p2p.AskServer[memswarm.Addr] = b
+		switch kind {
+		case "string":
+			asker, server = p2pmux.NewStringAskMux[memswarm.Addr](a).Open("ch"), p2pmux.NewStringAskMux[memswarm.Addr](b).Open("ch")
+		case "uint16":
+			asker, server = p2pmux.NewUint16AskMux[memswarm.Addr](a).Open(7), p2pmux.NewUint16AskMux[memswarm.Addr](b).Open(7)
+		case "uint32":
+			asker, server = p2pmux.NewUint32AskMux[memswarm.Addr](a).Open(7), p2pmux.NewUint32AskMux[memswarm.Addr](b).Open(7)
+		case "uint64":
+			asker, server = p2pmux.NewUint64AskMux[memswarm.Addr](a).Open(7), p2pmux.NewUint64AskMux[memswarm.Addr](b).Open(7)
+		case "varint":
+			asker, server = p2pmux.NewVarintAskMux[memswarm.Addr](a).Open(7), p2pmux.NewVarintAskMux[memswarm.Addr](b).Open(7)
+		}
+		sctx, stopServer := context.WithCancel(context.Background())
+		defer stopServer()
+		handlerStarted := make(chan struct{}, 1)
+		handlerCtxEnded := make(chan time.Time, 1)
+		if served {
+			go func() {
+				for server.ServeAsk(sctx, func(hctx context.Context, resp []byte, m p2p.Message[memswarm.Addr]) int {
+					select {
+					case handlerStarted <- struct{}{}:
+					default:
+					}
+					select {
+					case <-hctx.Done():
+						select {
+						case handlerCtxEnded <- time.Now():
+						default:
+						}
+					case <-sctx.Done():
+					}
+					return -1
+				}) == nil {
+				}
+			}()
+		}
+		ctx, cancel := context.WithCancel(context.Background())
+		res := make(chan error, 1)
+		go func() {
+			_, err := asker.Ask(ctx, make([]byte, 8), b.LocalAddr(), p2p.IOVec{[]byte("question")})
+			res <- err
+		}()
+		time.Sleep(time.Duration(cancelMs) * time.Millisecond)
+		running := false
+		select {
+		case <-handlerStarted:
+			running = true
+		default:
+		}
+		cancelAt := time.Now()
+		cancel()
+		ev.Eval(sub)
+		err, returned := ev.PatientRecv(promptness, res)
+		if !returned {
+			stopServer()
+			t.Fatalf("an Ask whose context was cancelled had not returned %v later\ncase: %s", promptness, desc)
+		}
+		if err == nil {
+			t.Fatalf("an Ask whose context was cancelled (handler never answers) returned nil\ncase: %s", desc)
+		}
+		if running {
+			if _, ok := ev.PatientRecv(promptness, handlerCtxEnded); !ok {
+				stopServer()
+				t.Fatalf("the handler's context had not ended %v after the asker's context was cancelled (cancel at %v)\ncase: %s", promptness, cancelAt.Sub(c13CaseStart), desc)
+			}
 			if ev.NonTrivial(sub, desc) {
 				ev.Sample(sub, desc)
 			}
